@@ -59,7 +59,20 @@ def run(facts, tr, rep):
     # methods of the service are inlined, the store's methods stay calls; the store itself, the constructors and the
     # layers are judged on the program as written
     facts0, tr0 = facts, tr
-    facts, tr = facts.shallow, tr.shallow
+    # roles of the store wrapper, by effect: the methods that forward to EvictionStore::get / ::insert are "the lookup"
+    # and "the insertion"; they stay calls, every other private helper between the service and them is inlined
+    ROLE = {"get": set(), "insert": set()}
+    for b0 in facts0.crates[CRATE].bodies:
+        if b0.kind != "fn" or not b0.def_.startswith(CRATE + "::store"):
+            continue
+        for c0 in graph(b0).calls():
+            if c0.name in ROLE and (c0.trait or "").endswith("EvictionStore"):
+                ROLE[c0.name].add(b0.def_)
+    rep.floor("C10.store-role-methods", len(ROLE["get"]) + len(ROLE["insert"]), 2)
+    from ..inline import view_of
+    keep = set(ROLE["get"]) | set(ROLE["insert"])
+    keep |= {b0.def_ for b0 in facts0.crates[CRATE].bodies if b0.kind == "fn" and b0.impl and (b0.impl.get("trait") or "").endswith("EvictionStore")}
+    facts, tr = view_of(facts0, keep)
     sbs = service_call_bodies(facts, crate=CRATE)
     if not sbs:
         rep.anchor_missing("Service::call of the cache service")
@@ -71,7 +84,7 @@ def run(facts, tr, rep):
     rep.floor("C10.inner-call-sites", len(sites), 1)
     # store.get calls in Service::call
     def is_store_get(c):
-        return c.name == "get" and any(d.startswith(CRATE + "::store") for d in c.targets_def())
+        return any(d in ROLE["get"] for d in c.targets_def())
     gets = [c for c in g.calls() if is_store_get(c)]
     helper_keys = {}
     if not gets:
@@ -144,7 +157,7 @@ def run(facts, tr, rep):
     ins_sites = []
     for ch in descendants(facts, sb):
         for c in graph(ch).calls():
-            if c.name == "insert" and any(d.startswith(CRATE + "::store") for d in c.targets_def()):
+            if any(d in ROLE["insert"] for d in c.targets_def()):
                 ins_sites.append((ch, c))
     rep.floor("C10.store-insert-sites", len(ins_sites), 1)
     for n, (ch, c) in enumerate(ins_sites):
@@ -163,8 +176,14 @@ def run(facts, tr, rep):
             continue
         R = await_node(ch, inner_aw)
         succ = None
+        succ_all = []
         for e in dominating_edges(tr, ch, c.bb):
-            if e["kind"] == "enum" and e["label"] in ("Ok", "Continue") and derives(tr, e["node"], R, variants=("Ready",)):
+            if e["kind"] == "enum" and e["label"] in ("Ok", "Continue") and derives(tr, e["node"], R, variants=("Ready", "Ok")):
+                succ_all.append(e)
+        # the same decision may be tested more than once on the way (`match r { Ok(v) => Ok(v), .. }` followed by `?`):
+        # the last test is the edge the insertion hangs on, the earlier ones are not further conditions
+        for e in succ_all:
+            if all(cg.node_dominates(o["bb"], e["bb"]) for o in succ_all):
                 succ = e
         val = peel(tr.expand(tr.operand(ch, c.args[2], c.loc)))
         val_ok = False
@@ -184,7 +203,7 @@ def run(facts, tr, rep):
             r = cg.reach([tgt], kinds=(N,), avoid_nodes=[c.bb])
             skip = [x for x in r if cg.term(x)["k"] == "return"]
             extra = [e for e in dominating_edges(tr, ch, c.bb) if e["bb"] in cg.reach([tgt], kinds=(N,)) and e["kind"] in ("bool", "enum")
-                     and not in_macro(cg.term(e["bb"]))]
+                     and not in_macro(cg.term(e["bb"])) and not any(e["bb"] == o["bb"] for o in succ_all)]
             rep.ob("C10.STORE-ON-OK", skey(ch, "insert#%d|always" % n), not skip and not extra, c.where(),
                    "every successful miss stores its response (the most recent response replaces the stored one)" if not skip and not extra else
                    "a successful miss can complete without storing its response: a later hit returns an older response than the most recently produced one")
